@@ -260,3 +260,16 @@ func (o Opts) Scale(quick, thorough int) int {
 	}
 	return n
 }
+
+// FindBin locates build/bin/<name> from an output directory inside the build tree (build/Cxx, build/Cxx/search, ...)
+func FindBin(outDir, name string) string {
+	d, _ := filepath.Abs(outDir)
+	for i := 0; i < 6; i++ {
+		p := filepath.Join(d, "bin", name)
+		if st, err := os.Stat(p); err == nil && !st.IsDir() {
+			return p
+		}
+		d = filepath.Dir(d)
+	}
+	return filepath.Join(filepath.Dir(outDir), "bin", name)
+}
